@@ -12,6 +12,7 @@ import (
 	"io"
 	"sort"
 	"strings"
+	"time"
 
 	"github.com/AliceO2Group/Control/common"
 	"github.com/AliceO2Group/Control/core/controlcommands"
@@ -33,10 +34,11 @@ const (
 	Dies                        // the task dies (TASK_FAILED), no reply
 	NeverRunning                // launch: accepted but never reports TASK_RUNNING
 	LaunchFails                 // launch: TASK_FAILED instead of TASK_RUNNING
+	SlowLaunch                  // launch: TASK_RUNNING is reported one virtual second after the ACCEPT (an executor that takes its time to come up)
 )
 
 func (o Outcome) String() string {
-	return [...]string{"ok", "err-source", "err-ERROR", "undeliverable", "silent", "dies", "never-running", "launch-fails"}[o]
+	return [...]string{"ok", "err-source", "err-ERROR", "undeliverable", "silent", "dies", "never-running", "launch-fails", "slow-launch"}[o]
 }
 
 // Agent is one simulated Mesos agent.
@@ -382,6 +384,14 @@ func (m *Master) accept(fid string, a *scheduler.Call_Accept) {
 			case LaunchFails:
 				t.Alive = false
 				m.status(t, mesos.TASK_FAILED, "launch failed")
+			case SlowLaunch:
+				t.MesosState = mesos.TASK_STAGING
+				tt := t
+				vrt.AfterFunc(time.Second, func() {
+					if tt.Alive && tt.MesosState == mesos.TASK_STAGING {
+						m.status(tt, mesos.TASK_RUNNING, "")
+					}
+				})
 			default:
 				m.status(t, mesos.TASK_RUNNING, "")
 			}
